@@ -3,7 +3,7 @@
 # and compares the passing set with BASELINE.json's stable_pass. Scratch: /tmp/confirm-wt (warm target kept between calls;
 # remove with: tools/confirm_suite.sh --clean)
 set -u
-W=/tmp/confirm-wt
+W=${CONFIRM_WT:-/tmp/confirm-wt}
 if [ "${1:-}" = "--clean" ]; then git -C /repo worktree remove --force $W 2>/dev/null; rm -rf $W; exit 0; fi
 unset RUSTFLAGS; export CARGO_NET_OFFLINE=true
 [ -d $W ] || git -C /repo worktree add -q --detach $W HEAD || exit 2
